@@ -84,13 +84,30 @@ def active() -> bool:
     return CUR is not None
 
 
+LINEAR_ABSTRACTION = None  # set by pyvc.engine: terms -> (abstracted terms, #products)
+
+
 def _feasible(c: Ctx, extra):
+    t0 = time.time()
+    if LINEAR_ABSTRACTION is not None and (c.axioms or len(c.pc) > 8):
+        # a contradiction that is already visible when every product is an opaque value
+        # (sound over-approximation) is found without the non-linear machinery
+        try:
+            ab, nprod = LINEAR_ABSTRACTION(list(c.pc) + list(c.axioms) + [extra], som=False)
+            if nprod:
+                s0 = z3.Solver()
+                s0.set("timeout", 1000)
+                s0.add(*ab)
+                if s0.check() == z3.unsat:
+                    c.feas_time += time.time() - t0
+                    return False
+        except Exception:
+            pass
     s = z3.Solver()
     s.set("timeout", FEAS_TIMEOUT_MS)
     s.add(*c.pc)
     s.add(*c.axioms)
     s.add(extra)
-    t0 = time.time()
     r = s.check()
     c.feas_time += time.time() - t0
     return r != z3.unsat  # unknown => explore (sound: more paths, never fewer)
@@ -98,11 +115,13 @@ def _feasible(c: Ctx, extra):
 
 def decide(term) -> bool:
     """branch on a z3 Bool"""
-    term = z3.simplify(term)
-    if z3.is_true(term):
+    st = z3.simplify(term)
+    if z3.is_true(st):
         return True
-    if z3.is_false(term):
+    if z3.is_false(st):
         return False
+    # keep the term as written: the simplifier turns `x*y >= 0` into a case analysis on the
+    # signs of the factors, which hides the product from later (linear) reasoning
     c = ctx()
     k = len(c.taken)
     if k < len(c.forced):
@@ -241,12 +260,15 @@ class SBool:
 
 
 def _mkbool(t):
-    t = z3.simplify(t)
-    if z3.is_true(t):
+    st = z3.simplify(t)
+    if z3.is_true(st):
         return True
-    if z3.is_false(t):
+    if z3.is_false(st):
         return False
-    return SBool(t)
+    return SBool(t if KEEP_TERMS else st)
+
+
+KEEP_TERMS = True
 
 
 def tobool(x):
